@@ -9,10 +9,10 @@ from ..gen import histories as H, sqlite_factory as F
 from ..impl import dump as D
 from ..impl.canon import guarded, hx
 from ..leanio import driver
-from . import dbcommon as C
+from . import dbcommon as C, walindex as W
 
 ID = "C17"
-LEAN_MODULES = ["SqliteDissect.Properties.C17", "SqliteDissect.Properties.C17Step"]
+LEAN_MODULES = ["SqliteDissect.Properties.C17", "SqliteDissect.Properties.C17Step", "SqliteDissect.Properties.C17WalIndex"]
 RULE = ("100-byte strings obtained from valid headers (one per factory database) by perturbing every field with "
         "boundary and random values, every value of the one- and two-byte fields (all 65536 page sizes), all pairs for the interacting fields; WAL / frame / journal headers likewise; "
         "WAL histories in which PRAGMA-settable fields change, each version's header compared with the pragma values "
@@ -178,6 +178,7 @@ def run(ctx):
                 j = b"\xd9\xd5\x05\xf9\x20\xa1\x63\xd7" + j[8:]
             cases.append((f"hdr.journal {hx(j)}", impl_journal(j)))
         ctx.differential(cases, "hdr.wal/frame/journal")
+        ctx.differential(W.run_header(ctx), "hdr.walindex")      # WAL-index (-shm) header: harness/props/walindex.py
         # histories: header of each version vs PRAGMA values after that commit
         n = 24 if ctx.thorough() else 6
         for i in range(n):
@@ -235,6 +236,8 @@ def search(ctx, broken):
 def replay(ctx, data):
     f = data.get("failure") or {}
     case = f.get("case", {})
+    if "walindex_hex" in case:
+        return W.replay_header(ctx, case)
     if "hex" in case:
         m = bytes.fromhex(case["hex"]) if case["hex"] != "-" else b""
         out = impl_db(m)
